@@ -76,6 +76,19 @@ Proof.
   exact (PValues.pvalues_unique _ (lift l1) (lift l2) v1 v2 UO (IL r1 l1 L1) (IL r2 l2 L2) T1 Same A1 A2 B1 B2 D1 D2).
 Qed.
 
+(* under ANY ordering - the default one on logs WITH clock ties included, where the order clauses are not
+   claimed (K2) - Values() of every replica of every such history still holds only entries of the log, each
+   under its own hash, no hash twice (Proofs/ValuesSound.v) *)
+From IpfsLog Require Import Proofs.PInv Proofs.ValuesSound.
+Theorem C03_values_sound_under_any_ordering ops r l v :
+  owf ops -> nth_error (s_logs (run ops)) r = Some l -> values l = Some v ->
+  NoDup (okeys v) /\ okeys v = map e_hash (oslice v) /\
+  (forall e, In e (oslice v) -> In e (oslice (l_entries l))).
+Proof.
+  intros W L. destruct (osinv_run ops W) as [_ IL]. pose proof (IL r l L) as I.
+  apply values_sound. intros k e H. now apply (pi_heads _ _ I) in H.
+Qed.
+
 From IpfsLog Require Import Model.ExampleHist Proofs.WfBool.
 Example C03_nonvacuous :
   wf ex_hist /\ hist_bound ex_hist < two63 /\
@@ -113,3 +126,4 @@ Print Assumptions C03_ties_are_excluded.
 Print Assumptions C03_seeded_clocks_nonvacuous.
 Print Assumptions C03_values_of_reopened_logs.
 Print Assumptions C03_depends_only_on_entries_in_every_history.
+Print Assumptions C03_values_sound_under_any_ordering.
